@@ -92,6 +92,36 @@
 (*   references at rounding level for every decade.  The same decades are  *)
 (*   laid over the function distribution itself (mean = +-10^em, variance  *)
 (*   = 10^ev) for the parameter-free Bernoulli likelihood (kind "func").   *)
+(*   CONSTRAINT of every parameter (round 4): a further dimension of the   *)
+(*   lattice.  Every parameter is registered with a constraint of one of   *)
+(*   ConClasses: "default" (Positive() / GreaterThan(2)), "gt" (GreaterThan *)
+(*   of a moved lower bound), "interval" (Interval(a, b): a finite upper   *)
+(*   bound, sigmoid transform), "exp" (the default bounds with the         *)
+(*   non-default transform exp / log), given to the constructor or         *)
+(*   registered afterwards (ConHows).  The valid range is the range of     *)
+(*   THAT constraint: value = its lower bound + 10^e.  The conditional     *)
+(*   reads the value the public property reports, i.e. the raw parameter   *)
+(*   through the REGISTERED constraint: a forward that inlines the default *)
+(*   transform for a parameter (ParamInline) is told apart exactly on the  *)
+(*   cases with a non-default class (ParamsThroughConstraintOK).  Every    *)
+(*   lattice value is also valid under the default constraint, so a fresh  *)
+(*   default-constrained likelihood with the same VALUE is the oracle for  *)
+(*   "integrals depend on the constraint only through the value".          *)
+(*                                                                         *)
+(* "condf"  The conditional-distribution clause over the WHOLE RANGE of    *)
+(*   the function values: |f| = 10^e for every e of FDecades (-6 .. 3),    *)
+(*   both signs / every direction pattern, x observation class, for every  *)
+(*   likelihood whose conditional the library builds (Bernoulli, Laplace,  *)
+(*   Student-t, Beta, Softmax with and without mixing weights).  What is   *)
+(*   exact in rationals is stated here: the Softmax logits z = W f and the *)
+(*   log-odds log p(c|f) - log p(c'|f) = z_c - z_c' (unbounded: no floor - *)
+(*   a conditional whose log-probabilities are floored CondFloor below the *)
+(*   most likely class, as torch's Categorical(probs=..) does at 36.04, is *)
+(*   told apart by a case of the lattice: CondNoFloorOK), the linear part  *)
+(*   -|y - f| / b of the Laplace log density and its derivative            *)
+(*   sign(y - f) / b (never 0).  The remaining densities are named; the    *)
+(*   replay holds log_prob of the returned distribution AND its gradient   *)
+(*   with respect to f to mpmath references over the whole lattice.        *)
 (***************************************************************************)
 EXTENDS Rational, Shapes, TLC, BackwardOps
 
@@ -106,7 +136,13 @@ CONSTANTS Part,
           Decades,       \* "params": exponents e of the lattice values lower bound + 10^e
           MinSpread,     \* "params": a batch mixes small and large values: exponents of every parameter at least this far apart
           ParamK,        \* "params": members of a batched parameter tensor
-          ParamFloor     \* "params": the MODELLED forward floors every parameter at lower bound + 10^ParamFloor; the code has no floor (an exponent below Decades)
+          ParamFloor,    \* "params": the MODELLED forward floors every parameter at lower bound + 10^ParamFloor; the code has no floor (an exponent below Decades)
+          ConClasses,    \* "params": constraint classes of a parameter ("default", "gt", "interval", "exp")
+          ConDecades,    \* "params": exponents of the cases with a non-default constraint (a subset of Decades; 10^e below the width of the interval class)
+          ConHows,       \* "params": how the constraint gets in ("ctor": constructor argument, "register": register_constraint afterwards)
+          ParamInline,   \* "params": set of <<likelihood, parameter>> whose MODELLED forward inlines the default transform instead of going through the registered constraint; {} for the code
+          FDecades,      \* "condf": exponents e of the function-value magnitudes 10^e
+          CondFloor      \* "condf": the MODELLED conditional floors log-probabilities this far below the most likely class (0: no floor, the code)
 
 VARIABLES c, out
 vars == <<c, out>>
@@ -279,20 +315,36 @@ Pow10(e)    == IF e >= 0 THEN <<QPow(10, e), 1>> ELSE <<1, QPow(10, -e)>>
 ParamValue(p, e) == RAdd(R(LowerOf(p)), Pow10(e))
 Assign(l)   == [ParamsOf(l) -> Decades]                          \* one exponent per parameter
 
+\* the CONSTRAINT of a parameter: class |-> (lower bound, upper bound, transform).  "default" is what the constructor registers when no constraint is given
+ConLower(p, k) == CASE k = "gt"       -> RAdd(R(LowerOf(p)), RQ(3, 2))     \* GreaterThan(LowerOf(p) + 3/2)
+                    [] k = "interval" -> RAdd(R(LowerOf(p)), RQ(1, 2))     \* Interval(LowerOf(p) + 1/2, LowerOf(p) + 30)
+                    [] OTHER          -> R(LowerOf(p))                     \* "default", "exp": (LowerOf(p), oo)
+ConBounded(k)  == k = "interval"
+ConUpper(p, k) == RAdd(R(LowerOf(p)), R(30))                              \* read only when ConBounded(k)
+ConTransform(k) == CASE k = "interval" -> "sigmoid" [] k = "exp" -> "exp" [] OTHER -> "softplus"
+ConValue(p, k, e) == RAdd(ConLower(p, k), Pow10(e))                       \* = ParamValue(p, e) for the default class
+DefaultCon(l)  == [p \in ParamsOf(l) |-> "default"]
+ConAssign(l)   == [ParamsOf(l) -> ConClasses]
+\* the class through which the MODELLED forward reads raw_p: the registered one, unless the forward inlines the default transform
+ModelReadClass(l, p, k) == IF <<l, p>> \in ParamInline THEN "default" ELSE k
+
 \* what the documented conditional reads from the parameters (attribute of the returned distribution |-> exact value):
 \*   Laplace(loc = f, scale = sqrt(noise));  StudentT(df = deg_free, loc = f, scale = sqrt(noise));
 \*   Beta(concentration1 = sigmoid(f) s + 1, concentration0 = (1 - sigmoid(f)) s + 1), i.e. concentration1 + concentration0 = s + 2;
 \*   Bernoulli(probs = Phi(f)) reads no parameter
-CondOf(l, a) == CASE l = "Laplace"  -> [scale_sq |-> ParamValue("noise", a["noise"])]
-                  [] l = "StudentT" -> [scale_sq |-> ParamValue("noise", a["noise"]), df |-> ParamValue("deg_free", a["deg_free"])]
-                  [] l = "Beta"     -> [conc_sum |-> RAdd(ParamValue("scale", a["scale"]), R(2))]
-                  [] OTHER          -> [probs |-> <<0, 1>>]
+CondOfC(l, a, k) == CASE l = "Laplace"  -> [scale_sq |-> ConValue("noise", k["noise"], a["noise"])]
+                      [] l = "StudentT" -> [scale_sq |-> ConValue("noise", k["noise"], a["noise"]), df |-> ConValue("deg_free", k["deg_free"], a["deg_free"])]
+                      [] l = "Beta"     -> [conc_sum |-> RAdd(ConValue("scale", k["scale"], a["scale"]), R(2))]
+                      [] OTHER          -> [probs |-> <<0, 1>>]
+CondOf(l, a) == CondOfC(l, a, DefaultCon(l))
 
 \* the code-shaped reading: forward() uses the parameter as it is.  A "numerical guard" (clamp_min inside forward) is modelled by ParamFloor; with a floor
 \* inside the lattice TLC must find a case whose conditional differs from the documented one (vacuity guard of Decades: checks/c13.py runs it with -4)
 ModelExp(e)       == IF e < ParamFloor THEN ParamFloor ELSE e
 ModelCondOf(l, a) == CondOf(l, [p \in DOMAIN a |-> ModelExp(a[p])])
 ParamsNoFloorOK   == (Part = "params" /\ c.kind = "param") => \A j \in DOMAIN c.members : ModelCondOf(c.lik, c.members[j]) = CondOf(c.lik, c.members[j])
+\* the conditional reads every parameter through the constraint registered for it (= the value the public property reports)
+ParamsThroughConstraintOK == (Part = "params" /\ c.kind = "param") => \A p \in ParamsOf(c.lik) : ModelReadClass(c.lik, p, c.con[p]) = c.con[p]
 
 \* how the value reaches the raw parameter: the property setter or Module.initialize, with a tensor or a python float
 \* (`if not torch.is_tensor(value)` is a branch of every setter); a float carries one value for all batch members
@@ -327,15 +379,22 @@ ParamMember(x, b) == IF x.bs = <<>> THEN 1 ELSE ShUnb(b, ParamShape(x))[1] + 1  
 \* [n, 1, .., 1] with the rank of the function distribution, so a likelihood with batch shape [K] needs function values of shape [K, N] or [1, N]
 ParamInDomain(x) == Len(ParamShape(x)) <= Len(x.fs) /\ ShCompatible(<<ParamShape(x), x.fs>>)
 
+ConExps(l)   == [ParamsOf(l) -> ConDecades]
+ConRouteHows == {rh \in {<<"setter-tensor", "ctor">>, <<"initialize-float", "ctor">>, <<"setter-tensor", "register">>} : rh[2] \in ConHows}
 ParamCasesOf(l) ==
   IF ParamsOf(l) = {}
-  THEN {[kind |-> "param", lik |-> l, layout |-> "scalar", route |-> "none", bs |-> <<>>, fs |-> f, members |-> << [p \in {} |-> 0] >>] : f \in {<<ParamN>>, <<ParamK, ParamN>>}}
-  ELSE {[kind |-> "param", lik |-> l, layout |-> "scalar", route |-> r, bs |-> <<>>, fs |-> f, members |-> <<a>>] :
+  THEN {[kind |-> "param", lik |-> l, layout |-> "scalar", route |-> "none", bs |-> <<>>, fs |-> f, members |-> << [p \in {} |-> 0] >>, con |-> DefaultCon(l), conhow |-> "ctor"] : f \in {<<ParamN>>, <<ParamK, ParamN>>}}
+  ELSE {[kind |-> "param", lik |-> l, layout |-> "scalar", route |-> r, bs |-> <<>>, fs |-> f, members |-> <<a>>, con |-> DefaultCon(l), conhow |-> "ctor"] :
             r \in ParamRoutes, a \in Assign(l), f \in {<<ParamN>>, <<ParamK, ParamN>>}}
-       \cup {[kind |-> "param", lik |-> l, layout |-> "broadcast", route |-> r, bs |-> <<ParamK>>, fs |-> f, members |-> [j \in 1..ParamK |-> a]] :
+       \cup {[kind |-> "param", lik |-> l, layout |-> "broadcast", route |-> r, bs |-> <<ParamK>>, fs |-> f, members |-> [j \in 1..ParamK |-> a], con |-> DefaultCon(l), conhow |-> "ctor"] :
             r \in {rr \in ParamRoutes : FloatRoute(rr)}, a \in Assign(l), f \in {<<ParamK, ParamN>>, <<1, ParamN>>}}
-       \cup {[kind |-> "param", lik |-> l, layout |-> "batch", route |-> r, bs |-> <<ParamK>>, fs |-> f, members |-> q] :
+       \cup {[kind |-> "param", lik |-> l, layout |-> "batch", route |-> r, bs |-> <<ParamK>>, fs |-> f, members |-> q, con |-> DefaultCon(l), conhow |-> "ctor"] :
             r \in {rr \in ParamRoutes : ~FloatRoute(rr)}, q \in MixedSeqs(l), f \in {<<ParamK, ParamN>>, <<1, ParamN>>}}
+       \* the constraint dimension: every assignment of classes to the parameters that is not all-default
+       \cup {[kind |-> "param", lik |-> l, layout |-> "scalar", route |-> rh[1], bs |-> <<>>, fs |-> <<ParamN>>, members |-> <<a>>, con |-> k, conhow |-> rh[2]] :
+            rh \in ConRouteHows, a \in ConExps(l), k \in ConAssign(l) \ {DefaultCon(l)}}
+       \cup {[kind |-> "param", lik |-> l, layout |-> "batch", route |-> "setter-tensor", bs |-> <<ParamK>>, fs |-> <<ParamK, ParamN>>, members |-> q, con |-> k, conhow |-> "ctor"] :
+            q \in {qq \in [1..ParamK -> ConExps(l)] : ParamSpread(l, qq)}, k \in ConAssign(l) \ {DefaultCon(l)}}
 \* the same decades laid over the function distribution (the "parameters" of the parameter-free Bernoulli likelihood): mean sg 10^em, variance 10^ev
 FuncCases  == [kind : {"func"}, em : Decades, sg : {-1, 1}, ev : Decades]
 ParamCases == UNION {ParamCasesOf(l) : l \in OneDimLiks} \cup FuncCases
@@ -345,9 +404,17 @@ ParamsOK ==
     LET l == c.lik
     IN /\ \A j \in DOMAIN c.members : \A p \in ParamsOf(l) :
             LET a == c.members[j]
-            IN /\ RLt(R(LowerOf(p)), ParamValue(p, a[p]))                                      \* every lattice value is valid
+            IN /\ RLt(ConLower(p, c.con[p]), ConValue(p, c.con[p], a[p]))                      \* every lattice value is valid under the registered constraint
+               /\ ConBounded(c.con[p]) => RLt(ConValue(p, c.con[p], a[p]), ConUpper(p, c.con[p]))
+               /\ RLt(R(LowerOf(p)), ConValue(p, c.con[p], a[p]))                              \* ... and under the default one (the default-constrained twin exists)
+               /\ c.con[p] = "default" => ConValue(p, c.con[p], a[p]) = ParamValue(p, a[p])
                \* no floor / ceiling / clamp inside the valid range: another valid value of p gives another conditional
-               /\ \A e2 \in Decades \ {a[p]} : CondOf(l, [a EXCEPT ![p] = e2]) # CondOf(l, a)
+               /\ \A e2 \in Decades \ {a[p]} : CondOfC(l, [a EXCEPT ![p] = e2], c.con) # CondOfC(l, a, c.con)
+               \* ... and so does the same exponent under another constraint class with another lower bound
+               /\ \A k2 \in ConClasses : ConLower(p, k2) # ConLower(p, c.con[p]) => CondOfC(l, a, [c.con EXCEPT ![p] = k2]) # CondOfC(l, a, c.con)
+       /\ DOMAIN c.con = ParamsOf(l) /\ \A p \in ParamsOf(l) : c.con[p] \in ConClasses
+       /\ c.conhow \in ConHows \cup {"ctor"}
+       /\ (c.con # DefaultCon(l)) => \A j \in DOMAIN c.members : \A p \in ParamsOf(l) : c.members[j][p] \in ConDecades
        /\ c.layout = "batch" => ParamSpread(l, c.members)
        /\ c.layout = "broadcast" => \A j \in DOMAIN c.members : c.members[j] = c.members[1]
        /\ FloatRoute(c.route) => c.layout # "batch"
@@ -362,11 +429,82 @@ FuncOK == (Part = "params" /\ c.kind = "func") => RLt(RZero, Pow10(c.ev))
 
 ParamOut(x) ==
   IF x.kind = "func" THEN [m |-> RMul(R(x.sg), Pow10(x.em)), v |-> Pow10(x.ev)]
-  ELSE [values |-> [j \in DOMAIN x.members |-> [p \in ParamsOf(x.lik) |-> ParamValue(p, x.members[j][p])]],
-        cond   |-> [j \in DOMAIN x.members |-> CondOf(x.lik, x.members[j])],
+  ELSE [values |-> [j \in DOMAIN x.members |-> [p \in ParamsOf(x.lik) |-> ConValue(p, x.con[p], x.members[j][p])]],
+        cond   |-> [j \in DOMAIN x.members |-> CondOfC(x.lik, x.members[j], x.con)],
+        con    |-> [p \in ParamsOf(x.lik) |-> [class |-> x.con[p], lower |-> ConLower(p, x.con[p]), bounded |-> ConBounded(x.con[p]), upper |-> ConUpper(p, x.con[p]),
+                                                transform |-> ConTransform(x.con[p]), dlower |-> R(LowerOf(p))]],
         pshape |-> ParamShape(x), shape |-> ParamResult(x),
         reads  |-> {<<b, ParamMember(x, b), ShUnb(b, x.fs)>> : b \in ShIndices(ParamResult(x))},
         regime |-> RegimeOf(x.lik), place |-> PlaceOf(x.lik), reach |-> NodeReach]
+
+\* ============================== the conditional over the whole range of the function values =========
+\* Softmax: C = 3 classes.  With mixing weights the latent vector has 2 features and z = W f for the integer matrix SoftW (rows = classes);
+\* without, W = I and the latent vector has 3 entries.  f = 10^em x an integer direction pattern
+SoftC     == 3
+SoftW     == << <<1, 0>>, <<0, 1>>, <<-1, -1>> >>
+SoftI     == << <<1, 0, 0>>, <<0, 1, 0>>, <<0, 0, 1>> >>
+SoftDirs(mix) == IF mix THEN { <<1, 0>>, <<1, -1>>, <<-1, -1>>, <<2, 1>> } ELSE { <<1, 0, -1>>, <<1, 1, -1>>, <<0, 0, 1>>, <<-1, 2, 0>> }
+SoftMat(mix)  == IF mix THEN SoftW ELSE SoftI
+\* the logits in units of the magnitude (integers; TLC integers are 32 bit, so differences are taken BEFORE scaling by 10^em)
+SoftZInt(x)   == LET W == SoftMat(x.mix) IN [cc \in 1..SoftC |-> QSum([a \in 1..Len(x.dir) |-> W[cc][a] * x.dir[a]])]
+SoftLogits(x) == [cc \in 1..SoftC |-> RMul(Pow10(x.em), R(SoftZInt(x)[cc]))]
+IMaxOf(q)     == CHOOSE m \in {q[i] : i \in DOMAIN q} : \A i \in DOMAIN q : q[i] <= m
+\* log p(c | f) - log p(most likely class | f) = z_c - max z, for every class: unbounded below
+SoftGaps(x)   == LET z == SoftZInt(x) IN [cc \in 1..SoftC |-> RMul(Pow10(x.em), R(z[cc] - IMaxOf(z)))]
+\* the MODELLED conditional: log-probabilities floored CondFloor below the most likely class (0: none)
+ModelGaps(x)  == [cc \in 1..SoftC |-> IF CondFloor > 0 /\ RLt(SoftGaps(x)[cc], R(-CondFloor)) THEN R(-CondFloor) ELSE SoftGaps(x)[cc]]
+SoftObsClass(x) == LET g == SoftGaps(x)[x.obs] IN IF IsZero(g) THEN "most-likely" ELSE IF RLt(g, R(-36)) THEN "confidently-wrong" ELSE "less-likely"
+
+\* one-dimensional likelihoods: f = sg 10^em; fixed parameters (noise 1/4, i.e. scale b = 1/2; deg_free 4; Beta scale 5); observation classes
+CondOneDim  == {"Bernoulli", "Laplace", "StudentT", "Beta"}
+CondB       == RQ(1, 2)                                                  \* sqrt(noise), noise = 1/4
+CondPar(l)  == CASE l = "Laplace" -> [noise |-> RQ(1, 4)] [] l = "StudentT" -> [noise |-> RQ(1, 4), deg_free |-> R(4)] [] l = "Beta" -> [scale |-> R(5)] [] OTHER -> [none |-> RZero]
+CondObs(l)  == CASE l = "Bernoulli" -> {"0", "1"} [] l = "Beta" -> {"low", "mid", "high"} [] OTHER -> {"fixed", "near-right", "near-left"}
+CondF(x)    == RMul(R(x.sg), Pow10(x.em))
+\* y - f for the location families (the offset itself for the "near" classes: no cancellation), y for the others
+CondOffset(x) == CASE x.obs = "fixed" -> RSub(RQ(3, 10), CondF(x)) [] x.obs = "near-right" -> RMul(CondB, RQ(1, 2)) [] x.obs = "near-left" -> RMul(CondB, R(-2)) [] OTHER -> RZero
+CondY(x)    == CASE x.obs \in {"0", "1"} -> (IF x.obs = "1" THEN ROne ELSE RZero)
+                 [] x.obs = "low" -> RQ(1, 10) [] x.obs = "mid" -> RQ(1, 2) [] x.obs = "high" -> RQ(17, 20)
+                 [] x.obs = "fixed" -> RQ(3, 10)
+                 [] OTHER -> RAdd(CondF(x), CondOffset(x))                     \* "near-right", "near-left": y = f + offset
+CondDensity(l) == CASE l = "Bernoulli" -> "Phi((2y-1) f)" [] l = "Laplace" -> "exp(-|y-f|/b)/(2b), b = sqrt(noise)"
+                    [] l = "StudentT" -> "t_nu((y-f)/s)/s, s = sqrt(noise), nu = deg_free" [] l = "Beta" -> "Beta(y; sigmoid(f) s + 1, (1 - sigmoid(f)) s + 1)"
+                    [] OTHER -> "softmax(W f)[y]"
+\* Laplace: log p(y|f) + log(2b) = -|y - f| / b and d/df log p = sign(y - f) / b, exactly
+LapLin(x)   == RNeg(RDiv(RAbsQ(CondOffset(x)), CondB))
+LapSlope(x) == IF IsZero(CondOffset(x)) THEN RZero ELSE IF RLt(RZero, CondOffset(x)) THEN RDiv(ROne, CondB) ELSE RNeg(RDiv(ROne, CondB))
+
+CondCases == [lik : CondOneDim, em : FDecades, sg : {-1, 1}, obs : {"0", "1", "low", "mid", "high", "fixed", "near-right", "near-left"}]
+CondFCases == {x \in CondCases : x.obs \in CondObs(x.lik)}
+             \cup {[lik |-> "Softmax", mix |-> mx, em |-> e, dir |-> d, obs |-> o] : mx \in BOOLEAN, e \in FDecades, d \in SoftDirs(TRUE) \cup SoftDirs(FALSE), o \in 1..SoftC}
+CondFInit == {x \in CondFCases : x.lik = "Softmax" => x.dir \in SoftDirs(x.mix)}
+
+CondFOK ==
+  Part = "condf" =>
+    IF c.lik = "Softmax"
+    THEN /\ Len(c.dir) = Len(SoftMat(c.mix)[1])
+         /\ \E cc \in 1..SoftC : IsZero(SoftGaps(c)[cc])                                  \* some class is the most likely one
+         /\ \A cc \in 1..SoftC : RLe(SoftGaps(c)[cc], RZero)
+         \* log-odds between any two classes are the logit differences (the normaliser cancels)
+         /\ \A c1, c2 \in 1..SoftC : RMul(Pow10(c.em), R(SoftZInt(c)[c1] - SoftZInt(c)[c2])) = RMul(Pow10(c.em), R((SoftZInt(c)[c1] - IMaxOf(SoftZInt(c))) - (SoftZInt(c)[c2] - IMaxOf(SoftZInt(c)))))
+         /\ \A cc \in 1..SoftC : RLe(SoftLogits(c)[cc], RMul(Pow10(c.em), R(IMaxOf(SoftZInt(c)))))
+         \* the logits are linear in the magnitude: ten times the latent vector, ten times every gap
+         /\ (c.em + 1 \in FDecades) => \A cc \in 1..SoftC : SoftGaps([c EXCEPT !.em = c.em + 1])[cc] = RMul(R(10), SoftGaps(c)[cc])
+    ELSE /\ c.obs \in CondObs(c.lik)
+         /\ c.lik = "Beta" => RLt(RZero, CondY(c)) /\ RLt(CondY(c), ROne)
+         /\ (c.lik \in {"Laplace", "StudentT"} /\ c.obs # "fixed") => RLt(RZero, RAbsQ(CondOffset(c))) /\ RLe(RAbsQ(CondOffset(c)), R(1))      \* near: within two scales of f
+         /\ c.lik = "Laplace" => /\ RLe(LapLin(c), RZero)
+                                  /\ (~IsZero(CondOffset(c))) => ~IsZero(LapSlope(c))      \* the derivative never vanishes, however far the observation
+                                  /\ RMul(LapSlope(c), CondOffset(c)) = RNeg(LapLin(c))     \* |y - f| / b
+\* no floor under the log-probabilities: fails exactly when CondFloor > 0 and a case of the lattice has a class further below
+CondNoFloorOK == (Part = "condf" /\ c.lik = "Softmax") => ModelGaps(c) = SoftGaps(c)
+
+CondFOut(x) ==
+  IF x.lik = "Softmax"
+  THEN [density |-> CondDensity(x.lik), W |-> SoftMat(x.mix), f |-> [a \in 1..Len(x.dir) |-> RMul(Pow10(x.em), R(x.dir[a]))], logits |-> SoftLogits(x), gaps |-> SoftGaps(x),
+        class |-> SoftObsClass(x)]
+  ELSE [density |-> CondDensity(x.lik), par |-> CondPar(x.lik), f |-> CondF(x), y |-> CondY(x), offset |-> CondOffset(x),
+        lin |-> IF x.lik = "Laplace" THEN LapLin(x) ELSE RZero, slope |-> IF x.lik = "Laplace" THEN LapSlope(x) ELSE RZero]
 
 \* ============================== repeated differentiation of log_normal_cdf ========================
 \* zc: class of the argument tensor.  "tail": every entry below -1; "mixed": entries of all three branches; "notail": no entry below -1
@@ -399,12 +537,14 @@ Init ==
               [] Part = "shapes"  -> ShapeCases
               [] Part = "lattice" -> LatticeCells
               [] Part = "params"  -> ParamCases
+              [] Part = "condf"   -> CondFInit
               [] Part = "rediff"  -> RediffCases)
   /\ out = (CASE Part = "moments" -> MomentsOut(c)
               [] Part = "rule"    -> RuleOut(c)
               [] Part = "shapes"  -> ShapesOut(c)
               [] Part = "lattice" -> LatticeOut(c)
               [] Part = "params"  -> ParamOut(c)
+              [] Part = "condf"   -> CondFOut(c)
               [] Part = "rediff"  -> RediffOut(BWStart("lncdf", RediffTail(c))))
 Next == IF Part = "rediff" THEN RediffNext ELSE UNCHANGED vars
 Spec == Init /\ [][Next]_vars
